@@ -68,9 +68,20 @@ func (l *poolListener) InsertMomentum(d *nom.DetailedMomentum) {
 	if !applied {
 		where += ":notification-of-a-momentum-that-was-not-applied"
 	}
-	for _, u := range r.users {
+	for _, addr := range r.viewAccounts() {
+		u := struct{ Address types.Address }{addr}
 		b := l.before[u.Address]
 		a := view(r.nd, u.Address)
+		if types.IsEmbeddedAddress(addr) {
+			// rebuild of a contract's batches: the model's rebuild on the same chain (contract sends flagged)
+			k := len(a.confirmed) - len(b.confirmed)
+			if k >= 0 && (len(b.pool) > 0 || r.rng.Intn(4) == 0) {
+				r.emitStep(b, Con("OMomentum", U64(uint64(k))), 0, a, fmt.Sprintf("contract-momentum-confirms-%d-leaves-%s", min(k, 3), map[bool]string{true: "some-pooled", false: "none"}[len(a.pool) > 0]))
+			}
+			if len(a.pool) > 0 {
+				r.out.Count("pool:contract-batch-stays-unconfirmed-across-a-momentum")
+			}
+		}
 		r.out.Oracle(linkedOnTop(a), "pool-single-linked-chain", Tup(u.Address.String(), I64(int64(len(a.confirmed))), I64(int64(len(a.pool))), where))
 		// what is confirmed now is what the store says; measured against it: the previously pooled blocks that were not
 		// confirmed and still link, exactly (for a momentum that was not applied nothing got confirmed: the pool is unchanged)
@@ -197,6 +208,7 @@ func (r *poolRun) competingProducers() {
 	}
 	fm := FrontierOf(nd.Ch)
 	out.Oracle(fm.Hash == comp.Momentum.Hash && fm.PreviousHash == parent.Hash, "frontier-is-the-applied-momentum", Tup("after the competing momentum", U64(fm.Height)))
+	r.what = "competing momentum inserted by sync"
 	after := r.checkAll(before, types.Address{}, false)
 	for _, u := range r.users {
 		b, a := before[u.Address], after[u.Address]
@@ -228,6 +240,7 @@ func (r *poolRun) competingProducers() {
 	fm2 := FrontierOf(nd.Ch)
 	out.Oracle(fm2.Hash == comp.Momentum.Hash && nd.FrontierHeight() == parent.Height+1, "frontier-is-the-applied-momentum",
 		Tup("after the late own momentum", U64(fm2.Height), fmt.Sprint(err)))
+	r.what = "own momentum inserted after the competing one (not applied)"
 	after = r.checkAll(before, types.Address{}, true)
 	for _, u := range r.users {
 		b, a := before[u.Address], after[u.Address]
@@ -260,6 +273,7 @@ func (r *poolRun) competingProducers() {
 		lis.before = nil
 		fm3 := FrontierOf(nd.Ch)
 		out.Oracle(fm3.Height == parent.Height+2 && fm3.PreviousHash == comp.Momentum.Hash, "node-keeps-producing-after-competing-momentum", Tup(U64(fm3.Height)))
+		r.what = "momentum after the competition"
 		after = r.checkAll(before, types.Address{}, false)
 		for _, u := range r.users {
 			b, a := before[u.Address], after[u.Address]
